@@ -135,6 +135,13 @@ Theorem C14_import_unimported_submodule_hidden : forall mt ld m a attrs,
 Proof. exact mod_attr_not_imported. Qed.
 Print Assumptions C14_import_unimported_submodule_hidden.
 
+(** [from m import n1, n2, ..]: every name is looked up on the one module the statement names *)
+Theorem C14_fromlist_same_module : forall mt ld key names bs,
+  from_binds mt ld key names = Some bs ->
+  Forall2 (fun na b => fst b = snd na /\ mod_attr mt ld key (fst na) = Some (snd b)) names bs.
+Proof. exact from_binds_same_module. Qed.
+Print Assumptions C14_fromlist_same_module.
+
 (** a later pyimport step re-binds a name an earlier one imported (dict.update: last wins), so every
     !py after it — whatever the scope, by [C14_reads_imports_after_context] — sees the new object *)
 Theorem C14_pyimport_rebinds : forall k v stepns imports_before,
@@ -276,4 +283,16 @@ Example C14_pyimport_rebinds_nonvacuous :
       [ Ok (CInt 40); Ok (CStr "other"); Ok (CStr "other");
         Ok (CList 1000 [CStr "other"; CStr "other"]); Err "AttributeError" "" ]
       [("a", CInt 1); ("lst", CList 0 [CInt 1; CInt 2])] [("m", CMod "pkg.other")] []).
+Proof. vm_compute. reflexivity. Qed.
+
+(** [from pkg import sub, TOP, ONLY]: [sub] is a not-yet-imported sub-module that itself has a [TOP];
+    the later names still come from [pkg] *)
+Definition pkg_mods2 : list (string * ns) :=
+  [("pkg", [("TOP", PInt 1); ("ONLY", PInt 11)]); ("pkg.sub", [("SUBC", PInt 2); ("TOP", PStr "sub-top")])].
+Example C14_fromlist_nonvacuous :
+  eval_case pkg_mods2 std_builtins 1 h1 [("a", PInt 1)]
+    [SFromN "pkg" [("sub", "sub"); ("TOP", "TOP"); ("ONLY", "ONLY")]]
+    [ XList [N "TOP"; N "ONLY"; XAttr (N "sub") "TOP"] ]
+  = Some (mk_obs [Ok (CList 1000 [CInt 1; CInt 11; CStr "sub-top"])] [("a", CInt 1)]
+           [("sub", CMod "pkg.sub"); ("TOP", CInt 1); ("ONLY", CInt 11)] []).
 Proof. vm_compute. reflexivity. Qed.
